@@ -168,6 +168,17 @@ def pred_C01(ctx, d, iobs, default_minv=False):
         s = structs[sid]
         if not s['kids'] and not ctx.crit_ok(s['pixsub'], mode='orphan'):
             fails.append('parentless leaf %d fails the criteria but was kept' % sid)
+    # for criteria that can only turn true as a structure grows (everything but min_sum on negative data) a
+    # connected component that fails them as one leaf cannot contain any independent structure: it ends as a
+    # single failing parentless leaf and is left unassigned as a whole (theorem C17_root_survives_iff)
+    monotone = not any(c[0] == 'sum' for c in ctx.case.get('crits', [])) or all(ctx.k[p] >= 0 for p in ctx.kept)
+    if monotone:
+        for comp in ctx.components(ctx.kept):
+            if not ctx.crit_ok(sorted(comp), mode='orphan'):
+                lab = sorted(p for p in comp if lmap[p] != -1)
+                if lab:
+                    fails.append('isolated region %r fails the criteria as a leaf (so no part of it can pass) but its pixels %r are assigned'
+                                 % (sorted(comp), lab))
     if default_minv:
         fin = [ctx.k[p] for p in range(ctx.n) if ctx.k[p] is not None]
         if fin and not (ctx.minv < min(fin)):
